@@ -266,7 +266,11 @@ theorem Adv.cacheAccept_inv {lbs i len backward : Nat} {data : ByteArray}
   dsimp only
   split
   · split
-    · split <;> split <;> first | exact hI | exact ⟨hI.1, fun _ => hco _⟩
+    · split
+      · split
+        · exact ⟨hI.1, fun _ => hco _⟩
+        · exact hI
+      · exact ⟨hI.1, fun _ => hco _⟩
     · exact hI
   · exact hI
 
